@@ -79,6 +79,12 @@ TEXTS = {
         "level_note": "Trusted: A-NET (context encoders), torch.distributions objects behave as documented, A-API. D2 (mean returns a method) and D3 (sample dereferences a None context) were repaired in /repo.",
         "technique": "static abstract interpretation (name/attribute resolution, None-ness dataflow) + signed-sum term accounting",
     },
+    "C08": {
+        "level_text": "Strong structural check for all nestings, stage counts, shapes and split dimensions: _cascade is expanded symbolically (outputs threaded, log-dets summed from zeros, sequence iterated in order), inverse is shown to cascade (t.inverse for t in reversed list), InverseTransform swaps directions with arguments passed through, and the multiscale transform's constructor bookkeeping, forward and inverse are cross-checked as a pair (ceil/floor sizes at split_dim-1 vs torch.chunk at split_dim, emitted-first/carried-second vs cat order, slice boundaries = cumulative recorded sizes, reverse consumption, unsplit last stage, log-det accumulation, single append). Order is unobservable to the suite (its parts commute); here it is decided from the code. Numeric equality with hand-chained parts follows given T-OPS and is not separately established.",
+        "design_ref": "DESIGN.md 2.C08",
+        "level_note": "Trusted: T-OPS (torch.chunk sizes, cat/reshape/view semantics), the Transform contract of the parts, A-API (add_transform is called num_transforms times as documented).",
+        "technique": "static symbolic expansion + pair rules (constructor/forward/inverse) with alpha-normalised expressions",
+    },
 }
 
 NOT_CLAIMED = {}
